@@ -41,19 +41,23 @@ REQUIRED_COUNTERS = {   # about 40 % of what the unchanged tree produces (determ
               "step_nonempty_checked": 60000, "one_contribution_nodes_checked": 19000, "projection_idempotence_checked": 5000,
               "samples_conversion_checked": 24000, "array_conversion_checked": 7500, "kl_regrid_stages_checked": 15,
               "regrid_stages_checked": 6, "refusal_observed": 150, "inadmissible_probed": 24, "coupled_map_samples_checked": 500,
-              "layout_invariance_checked": 70000, "input_unchanged_checked": 70000},
+              "layout_invariance_checked": 70000, "input_unchanged_checked": 70000,
+              "repr_requests_checked": 1500},
     "thorough": {"reference_map_checked": 78000, "roundtrip_checked": 54000, "batch_columns_checked": 600000,
                  "shape_produced_checked": 130000, "shape_reports_checked": 125000, "step_nodes_membership_checked": 890000,
                  "step_nonempty_checked": 450000, "one_contribution_nodes_checked": 100000, "projection_idempotence_checked": 25000,
                  "samples_conversion_checked": 135000, "array_conversion_checked": 42000, "kl_regrid_stages_checked": 70,
                  "regrid_stages_checked": 30, "refusal_observed": 1000, "inadmissible_probed": 72, "coupled_map_samples_checked": 3000,
-                 "layout_invariance_checked": 330000, "input_unchanged_checked": 330000},
+                 "layout_invariance_checked": 330000, "input_unchanged_checked": 330000,
+                 "repr_requests_checked": 6000},
 }
 BUDGET_S = {"quick": 240.0, "thorough": 1500.0}
 
 BATCH_SIZES = (1, 2, 7)
 MAPS = ("exp", "affine", "sinh", "sq1")
 BASES = ("Continuous1D", "Continuous2D", "Image2D_C", "Image2D_F", "Image2D_V", "Discrete", "KLExpansion", "StepExpansion")
+REPR_FAMILIES = ("Continuous1D", "Continuous2D", "Image2D_C", "Image2D_F", "Image2D_V", "Discrete", "_DefaultGeometry1D",
+                 "_DefaultGeometry2D", "KLExpansion", "StepExpansion", "Mapped_Image2D", "Mapped_KLExpansion")
 GRID_KINDS = ("arange", "linspace", "unit", "faroffset", "jitter", "integer", "tiny", "huge")
 
 # ----------------------------------------------------------------------------- case generation
@@ -144,6 +148,12 @@ def cases(tier, seed):
                     "shapes": [_shape2(rnd, 8, "none"), _shape2(rnd, 8, "none")], "start_none": rnd.random() < 0.3, "v": v})
     for v in range(4 if quick else 16):
         out.append({"kind": "defaults", "n": rnd.randint(1, 40), "Ns": rnd.choice([1, 2, 5]), "v": v})
+    # ---- representation of flags and sizes (Python bool/int vs NumPy scalars vs 0/1) --------
+    for r in range(2 if quick else 8):
+        for fam in REPR_FAMILIES:
+            for size_repr in ("np.int64", "np.int32"):
+                out.append({"kind": "repr", "family": fam, "size_repr": size_repr, "n": rnd.randint(2, 12),
+                            "shape": _shape2(rnd, 6, "none"), "Ns": rnd.choice([1, 2, 4]), "r": r})
     # ---- refusals of inadmissible set-ups --------------------------------------------------
     for v in range(4 if quick else 12):
         out.append({"kind": "inadmissible", "n": rnd.randint(3, 30), "v": v})
@@ -1076,6 +1086,8 @@ def run_case(case, ctx):
         return _run_defaults(case, ctx, cuqi, rs)
     if kind == "inadmissible":
         return _run_inadmissible(case, ctx, cuqi, rs)
+    if kind == "repr":
+        return _run_repr(case, ctx, cuqi, rs)
     raise ValueError(kind)
 
 def _run_kl_regrid(case, ctx, cuqi, rs):
@@ -1201,6 +1213,144 @@ def _run_customkl(case, ctx, cuqi, rs):
         probe_single(ctx, d, rs, rep)
         probe_samples(ctx, d, rs, 2)
         probe_samples(ctx, d, rs, 1)
+
+# -- representation of flags and sizes -------------------------------------------
+
+def _repr_geom(cuqi, fam, n, shape, I):
+    """the same geometry with every size passed through the integer constructor I (int / np.int64 / np.int32)"""
+    G = cuqi.geometry
+    sh = (I(shape[0]), I(shape[1]))
+    if fam == "Continuous1D":
+        return G.Continuous1D(I(n))
+    if fam == "Continuous2D":
+        return G.Continuous2D(sh)
+    if fam.startswith("Image2D"):
+        return G.Image2D(sh, order="F" if fam.endswith("_F") else "C", visual_only=fam.endswith("_V"))
+    if fam == "Discrete":
+        return G.Discrete(I(n))
+    if fam == "_DefaultGeometry1D":
+        return G._DefaultGeometry1D(grid=I(n))
+    if fam == "_DefaultGeometry2D":
+        return G._DefaultGeometry2D(sh)
+    if fam == "KLExpansion":
+        return G.KLExpansion(np.linspace(0, 1, n + 3), decay_rate=1.5, normalizer=4.0, num_modes=I(n))
+    if fam == "StepExpansion":
+        return G.StepExpansion(np.linspace(0, 1, 3 * n + 1), n_steps=I(n))
+    if fam == "Mapped_Image2D":
+        return G.MappedGeometry(G.Image2D(sh), np.exp, np.log)
+    if fam == "Mapped_KLExpansion":
+        return G.MappedGeometry(G.KLExpansion(np.linspace(0, 1, n + 3), decay_rate=1.5, normalizer=4.0, num_modes=I(n)), np.exp, np.log)
+    raise ValueError(fam)
+
+def _summ(x):
+    """value, shape and type of a result, in a comparable form"""
+    if isinstance(x, (bool, np.bool_)):
+        return ("bool", bool(x))
+    if isinstance(x, (int, np.integer)):
+        return ("int", int(x))
+    if x is None:
+        return ("none",)
+    if isinstance(x, tuple):
+        return ("tuple",) + tuple(_summ(e) for e in x)
+    if isinstance(x, list):
+        return ("list", len(x)) + tuple(_summ(e) for e in x[:3])
+    if isinstance(x, np.ndarray):
+        a = np.asarray(x)
+        return (type(x).__name__, a.shape, a.dtype.kind, np.array(a, dtype=float) if a.dtype.kind in "fiub" else None,
+                bool(getattr(x, "is_par", None)) if hasattr(x, "is_par") else None)
+    if type(x).__name__ == "Samples":
+        return ("Samples", bool(x.is_par), bool(x.is_vec)) + (_summ(x.samples),)
+    return (type(x).__name__, repr(x)[:60])
+
+def _summ_equal(a, b):
+    if type(a) is not type(b):
+        return False
+    if isinstance(a, tuple):
+        return len(a) == len(b) and all(_summ_equal(x, y) for x, y in zip(a, b))
+    if isinstance(a, np.ndarray):
+        return a.shape == b.shape and np.allclose(a, b, rtol=1e-12, atol=0, equal_nan=True)
+    return a == b
+
+def _summ_short(a):
+    if isinstance(a, tuple):
+        return "(" + ",".join(_summ_short(x) for x in a) + ")"
+    if isinstance(a, np.ndarray):
+        return "array%s" % (a.shape,)
+    return repr(a)
+
+def _repr_requests(cuqi, g, T, F_, P, Fv, p, fv):
+    """every conversion request; T / F_ are the spellings of the flags True / False"""
+    CA, SA = cuqi.array.CUQIarray, cuqi.samples.Samples
+    isv = len(np.shape(fv)) == 1
+    V_ = T if isv else F_
+    return {
+        "report.par_shape": lambda: tuple(int(v) for v in g.par_shape),
+        "report.fun_shape": lambda: tuple(int(v) for v in g.fun_shape),
+        "report.par_dim": lambda: g.par_dim, "report.fun_dim": lambda: g.fun_dim,
+        "report.fun_is_array": lambda: g.fun_is_array,
+        "report.funvec_shape": lambda: tuple(int(v) for v in g.funvec_shape),
+        "par2fun.single": lambda: g.par2fun(p.copy()), "par2fun.batch": lambda: g.par2fun(P.copy()),
+        "fun2par.single": lambda: g.fun2par(fv.copy()), "fun2par.batch": lambda: g.fun2par(Fv.copy()),
+        "CUQIarray(par).funvals": lambda: CA(p.copy(), is_par=T, geometry=g).funvals,
+        "CUQIarray(par).parameters": lambda: CA(p.copy(), is_par=T, geometry=g).parameters,
+        "CUQIarray(par).funvals.parameters": lambda: CA(p.copy(), is_par=T, geometry=g).funvals.parameters,
+        "CUQIarray(fun).parameters": lambda: CA(fv.copy(), is_par=F_, geometry=g).parameters,
+        "CUQIarray(fun).funvals": lambda: CA(fv.copy(), is_par=F_, geometry=g).funvals,
+        "CUQIarray(fun).parameters.funvals": lambda: CA(fv.copy(), is_par=F_, geometry=g).parameters.funvals,
+        "Samples(par).funvals": lambda: SA(P.copy(), geometry=g, is_par=T, is_vec=T).funvals,
+        "Samples(par).funvals.vector": lambda: SA(P.copy(), geometry=g, is_par=T, is_vec=T).funvals.vector,
+        "Samples(par).funvals.parameters": lambda: SA(P.copy(), geometry=g, is_par=T, is_vec=T).funvals.parameters,
+        "Samples(par).parameters": lambda: SA(P.copy(), geometry=g, is_par=T, is_vec=T).parameters,
+        "Samples(fun).parameters": lambda: SA(Fv.copy(), geometry=g, is_par=F_, is_vec=V_).parameters,
+        "Samples(fun).vector": lambda: SA(Fv.copy(), geometry=g, is_par=F_, is_vec=V_).vector,
+        "Samples(fun).funvals": lambda: SA(Fv.copy(), geometry=g, is_par=F_, is_vec=V_).funvals,
+        "Samples(fun).vector.funvals": lambda: SA(Fv.copy(), geometry=g, is_par=F_, is_vec=V_).vector.funvals,
+    }
+
+def _run_repr(case, ctx, cuqi, rs):
+    """flags given as bool / np.bool_ / 0-1 and sizes given as int / np.int64 / np.int32 must give the same conversions
+    (value, shape, type) as the plain Python spelling, or be refused."""
+    fam, n, shape, Ns = case["family"], case["n"], case["shape"], case["Ns"]
+    INTS = {"int": int, "np.int64": np.int64, "np.int32": np.int32}
+    FLAGS = {"bool": (True, False), "np.bool_": (np.bool_(True), np.bool_(False)), "int01": (1, 0)}
+    g0 = _repr_geom(cuqi, fam, n, shape, int)
+    par_dim = int(g0.par_dim)
+    p = rs.uniform(0.3, 1.5, par_dim); P = rs.uniform(0.3, 1.5, (par_dim, Ns))
+    fv = np.asarray(g0.par2fun(rs.uniform(0.3, 1.5, par_dim)), dtype=float)
+    Fv = np.stack([np.asarray(g0.par2fun(rs.uniform(0.3, 1.5, par_dim)), dtype=float) for _ in range(Ns)], axis=-1)
+    def run_all(g, T, F_):
+        out = {}
+        for name, fn in _repr_requests(cuqi, g, T, F_, P, Fv, p, fv).items():
+            kind, val = core.outcome(fn, refusal=core.REFUSAL_TYPES_BROAD if hasattr(core, "REFUSAL_TYPES_BROAD") else core.REFUSAL_TYPES)
+            out[name] = ("value", _summ(val)) if kind == "value" else (kind, type(val).__name__ + ": " + core.short(str(val), 120))
+        return out
+    base = run_all(g0, True, False)
+    variants = [("size", case["size_repr"], "bool")] + [("flag", "int", fr) for fr in ("np.bool_", "int01")] + [("both", case["size_repr"], "np.bool_")]
+    for axis, ir, fr in variants:
+        kind, g = core.outcome(_repr_geom, cuqi, fam, n, shape, INTS[ir])
+        if kind != "value":
+            ctx.count("repr_requests_checked")
+            if kind == "refused":
+                ctx.refused(f"{fam}.sizes_as_{ir}", g); ctx.count("refusal_observed")
+            else:
+                ctx.violation("crash", {"geometry": fam, "via": "constructor", "size_repr": ir, "exc": type(g).__name__}, detail=repr(g))
+            continue
+        T, F_ = FLAGS[fr]
+        got = run_all(g, T, F_)
+        for name, b in base.items():
+            if b[0] != "value":
+                continue                       # what the plain spelling cannot do is judged by the other monitors
+            o = got[name]
+            ctx.count("repr_requests_checked")
+            cfg = {"geometry": fam, "axis": axis, "size_repr": ir, "flag_repr": fr, "via": name}
+            if o[0] == "refused":
+                ctx.refused(f"{fam}.{name}[{ir},{fr}]", Exception(o[1])); ctx.count("refusal_observed")
+            elif o[0] == "crashed":
+                ctx.violation("crash", dict(cfg, exc=o[1].split(":")[0]), detail=f"{name} with sizes as {ir} and flags as {fr}: {o[1]}")
+            elif not _summ_equal(o[1], b[1]):
+                ctx.violation("representation_dependent", cfg,
+                              detail=f"{name} on {fam}: sizes given as {ir}, flags as {fr} -> {_summ_short(o[1])[:300]}; plain Python int/bool -> {_summ_short(b[1])[:300]}")
+    ctx.nontrivial(f"repr:{fam}")
 
 def _run_inadmissible(case, ctx, cuqi, rs):
     """set-ups the documentation excludes must be refused, not silently accepted with wrong maps."""
